@@ -117,7 +117,8 @@ where
         };
 
         enum Defaults<'n> {
-            Static(Vec<(Cow<'n, PropName>, Expr)>),
+            /// key, default, and whether the default is a factory wrapped around the written value
+            Static(Vec<(Cow<'n, PropName>, Expr, bool)>),
             Dynamic(&'n Expr),
         }
         let defaults = defaults.map(|defaults| {
@@ -139,6 +140,7 @@ where
                                         span: DUMMY_SP,
                                         ..Default::default()
                                     }),
+                                    true,
                                 )),
                                 Prop::KeyValue(KeyValueProp { key, value }) => {
                                     try_unwrap_lit_prop_name(key).map(|key| {
@@ -158,6 +160,7 @@ where
                                                     ..Default::default()
                                                 })
                                             },
+                                            !value.is_lit(),
                                         )
                                     })
                                 }
@@ -178,6 +181,7 @@ where
                                             span: DUMMY_SP,
                                             ..Default::default()
                                         }),
+                                        false,
                                     )
                                 }),
                                 Prop::Method(MethodProp { key, function }) => {
@@ -188,6 +192,7 @@ where
                                                 ident: None,
                                                 function: function.clone(),
                                             }),
+                                            false,
                                         )
                                     })
                                 }
@@ -245,7 +250,7 @@ where
     fn build_props_type(
         &self,
         TsTypeAnn { type_ann, .. }: &TsTypeAnn,
-        defaults: Option<Vec<(Cow<PropName>, Expr)>>,
+        defaults: Option<Vec<(Cow<PropName>, Expr, bool)>>,
     ) -> ObjectLit {
         let mut props = Vec::with_capacity(3);
         self.resolve_type_elements(type_ann, &mut props);
@@ -361,6 +366,7 @@ where
                         ir.types.clear();
                         ir.types.insert(None);
                     }
+                    let is_function_prop = ir.types.contains(&Some(atom!("Function")));
                     let mut props = vec![
                         PropOrSpread::Prop(Box::new(Prop::KeyValue(KeyValueProp {
                             key: PropName::Ident(quote_ident!("type")),
@@ -398,7 +404,7 @@ where
                             }))),
                         }))),
                     ];
-                    if let Some((_, default)) = defaults.iter().flatten().find(|(name, _)| {
+                    if let Some((_, default, is_factory)) = defaults.iter().flatten().find(|(name, ..)| {
                         name.eq_ignore_span(&prop_name)
                             || if let (
                                 PropName::Ident(IdentName { sym: a, .. }),
@@ -414,9 +420,20 @@ where
                                 false
                             }
                     }) {
+                        let default = match default {
+                            // Vue doesn't call the default of a `Function` prop as a factory:
+                            // it has to be the written value itself
+                            Expr::Arrow(ArrowExpr { body, .. }) if *is_factory && is_function_prop => {
+                                match &**body {
+                                    BlockStmtOrExpr::Expr(value) => (**value).clone(),
+                                    BlockStmtOrExpr::BlockStmt(..) => default.clone(),
+                                }
+                            }
+                            _ => default.clone(),
+                        };
                         props.push(PropOrSpread::Prop(Box::new(Prop::KeyValue(KeyValueProp {
                             key: PropName::Ident(quote_ident!("default")),
-                            value: Box::new(default.clone()),
+                            value: Box::new(default),
                         }))));
                     }
                     PropOrSpread::Prop(Box::new(Prop::KeyValue(KeyValueProp {
